@@ -20,7 +20,7 @@ def validate_decoded(obj):
       "{} is not a finite float value".format(repr(obj)))
 
 def validate_encoded(string):
-  if not re.match(r"^[-+]?[0-9]*\.?[0-9]+([eE][-+]?[0-9]+)?$", string):
+  if not re.fullmatch(r"^[-+]?[0-9]*\.?[0-9]+([eE][-+]?[0-9]+)?$", string):
     raise gfapy.FormatError(
       "{} does not represent a valid float\n".format(repr(string)) +
       r"(it does not match [-+]?[0-9]*\.?[0-9]+([eE][-+]?[0-9]+)?)")
